@@ -75,6 +75,7 @@ func c19Consts(r *core.Rng) []constSpec {
 		{name: "CS", v: &val{kind: "str", s: "const"}},
 		{name: "CB", v: &val{kind: "bool", i: 1}},
 		{name: "CFN", raw: "func(x) { x + 1 }"},
+		{name: "CFC", raw: "mkc9(1)"}, // a closure: what it returns is part of its value (observed through a call)
 		{name: "CA_S", v: arrVal(1+r.Intn(8), 100)},
 		{name: "CA_L", v: arrVal(9+r.Intn(12), 200)},
 		{name: "CM_S", v: mapVal(1+r.Intn(4), 300)},
@@ -96,7 +97,7 @@ func (c constSpec) kind() string {
 	if c.v != nil {
 		return c.v.kind
 	}
-	if strings.HasPrefix(c.raw, "func") {
+	if strings.HasPrefix(c.raw, "func") || strings.HasPrefix(c.raw, "mkc9(") {
 		return "func"
 	}
 	return "float"
@@ -246,6 +247,11 @@ func c19Attempt(kind string, c constSpec, n int64) (string, bool) {
 				return C + " = " + lit[:m[3]] + ".0" + lit[m[3]:], true
 			}
 		}
+	case "closure-same-text":
+		// another closure of the same text over another captured value: not the same value
+		if C == "CFC" {
+			return C + " = mkc9(" + strconv.FormatInt(2+n%5, 10) + ")", true
+		}
 	case "same-value":
 		return C + " = " + c.literal(), k != "func" && k != "float" || k == "float"
 	}
@@ -254,7 +260,7 @@ func c19Attempt(kind string, c constSpec, n int64) (string, bool) {
 
 var c19Kinds = []string{"assign", "define", "incr-post", "incr-pre", "decr-post", "decr-pre", "idx-assign", "dot-assign", "new-key", "del-elem", "del-elem-idx",
 	"loop-int", "loop-list", "loop-int-read", "loop-list-read", "loop-int-self", "loop-int-deep", "loop-list-self", "param", "param-func", "nested-assign", "nested-define", "nested-idx", "loop-assign", "self-append", "catch-assign",
-	"alias-idx", "callee-mutates", "nested-elem", "slow-idx", "same-value", "equal-other-type", "equal-other-type-nested"}
+	"alias-idx", "callee-mutates", "nested-elem", "slow-idx", "same-value", "equal-other-type", "equal-other-type-nested", "closure-same-text", "closure-same-text"}
 
 func (c19) Generate(r *core.Rng, run int, tier string) *core.History {
 	h := &core.History{Cfg: map[string]int64{"maxdepth": 1000}, Flags: map[string]bool{}, Strs: map[string]string{}}
@@ -339,7 +345,7 @@ func (c c19) Execute(h *core.History) *core.Outcome {
 	cfgOff.NoReg = true
 	on, off := world.NewSession(cfgOn), world.NewSession(cfgOff)
 	st.Execs = 2
-	for _, p := range c06Prelude {
+	for _, p := range append([]string{"mkc9 = func(x) { () => x }"}, c06Prelude...) {
 		on.Input(p, nil)
 		off.Input(p, nil)
 	}
@@ -363,8 +369,8 @@ func (c c19) Execute(h *core.History) *core.Outcome {
 		shape = append(shape, e.Ev+":"+e.Tag+":"+e.Key+":"+e.Val+":"+a.Class)
 		switch e.Ev {
 		case "bind":
-			t1, _ := on.Observe(e.Name)
-			t2, _ := off.Observe(e.Name)
+			t1, _ := on.Observe(c19Obs(e.Name))
+			t2, _ := off.Observe(c19Obs(e.Name))
 			if a.Class != b.Class || t1 != t2 {
 				o.Viol = &core.Violation{Oracle: "register-modes-disagree", Event: i, Sig: "C19|modes|bind|" + e.Key + "|" + e.Val,
 					Detail: fmt.Sprintf("binding %q: registers on -> %s %s, registers off -> %s %s", e.Text, a.Class, t1, b.Class, t2)}
@@ -420,7 +426,7 @@ func (c c19) Execute(h *core.History) *core.Outcome {
 			want := bound[name]
 			for mi, s := range []*world.Session{on, off} {
 				mode := []string{"on", "off"}[mi]
-				got, _ := s.Observe(name)
+				got, _ := s.Observe(c19Obs(name))
 				if got != want && viol == nil {
 					viol = &core.Violation{Oracle: "constant-changed", Event: i, Sig: fmt.Sprintf("C19|changed|%s|%s|%s", e.Tag, e.Key, e.Val),
 						Detail: fmt.Sprintf("after attempt #%d %q (registers %s, outcome %s): %s reads %s, was bound to %s", i, e.Text, mode, a.Class, name, trunc(got, 300), trunc(want, 300))}
@@ -572,4 +578,13 @@ func sortedKeys(m map[string]string) []string {
 	}
 	sort.Strings(ks)
 	return ks
+}
+
+// c19Obs is the expression observing a constant: the name itself, or a call for the closure constant (two closures
+// of equal text differ only in what they return).
+func c19Obs(name string) string {
+	if name == "CFC" {
+		return "CFC()"
+	}
+	return name
 }
